@@ -379,3 +379,45 @@ func mayBeFreshUsageError(v ssa.Value, depth int) bool {
 }
 
 var _ = strings.HasPrefix
+
+// RefusePureW implements REFUSE-PURE-W: a Writer method exit that refuses the
+// call with a fresh, unrecorded *UsageError (the one case the property allows:
+// Finish away from the top level) leaves the writer untouched, so the caller
+// can carry on.
+func RefusePureW(p *load.Program) *report.RuleResult {
+	r := newResult("REFUSE-PURE-W", "every Writer method exit that returns a fresh *UsageError without recording it in the sticky error (a refused call the caller may recover from, e.g. Finish inside a container) is free of side effects on the writer", 2)
+	g := &guardW{p: p, eff: effects.Of(p)}
+	seen := map[*ssa.Function]bool{}
+	for _, m := range writerMethods(p, r) {
+		if seen[m.Fn] {
+			continue
+		}
+		seen[m.Fn] = true
+		ei := errResultIndex(m.Fn)
+		if ei < 0 {
+			continue
+		}
+		name := p.FuncName(m.Fn)
+		effs := g.effects(m.Fn)
+		for _, ret := range returns(m.Fn) {
+			if !mayBeFreshUsageError(ret.Results[ei], 0) {
+				continue
+			}
+			key := recvTypeName(m.Fn) + "." + m.Fn.Name() + "|refusal"
+			var hit *guardSite
+			for i := range effs {
+				if ssau.Reaches(effs[i].instr.Block(), ret.Block()) {
+					hit = &effs[i]
+					break
+				}
+			}
+			if hit == nil {
+				r.Add(report.Obligation{Key: key, Func: name, Pos: instrPos(p, ret), What: "unrecorded refusal exit", Status: report.Discharged, By: "no effect on the writer reaches this exit"})
+			} else {
+				r.Add(report.Obligation{Key: key, Func: name, Pos: instrPos(p, ret), What: "unrecorded refusal exit", Status: report.Violation,
+					Detail: "the refusal at " + instrPos(p, ret) + " is not sticky, yet it is reachable after " + hit.what + " at " + instrPos(p, hit.instr) + ": the writer the caller continues with is no longer in the state it was in before the refused call"})
+			}
+		}
+	}
+	return r
+}
